@@ -5,9 +5,11 @@ pub mod vocab;
 pub mod c01;
 pub mod c02;
 pub mod c03;
+pub mod c04;
 pub mod c05;
 pub mod c06;
 pub mod c07;
+pub mod c08;
 pub mod c09;
 pub mod c10;
 pub mod c11;
@@ -15,6 +17,7 @@ pub mod c12;
 pub mod c13;
 pub mod c14;
 pub mod lines;
+pub mod mixed;
 
 use engine::{Ctx, Tier, Verdict, Worker};
 
@@ -25,9 +28,11 @@ pub fn run_property(id: &str, ctx: &Ctx) -> bool {
         "C01" => c01::run(ctx),
         "C02" => c02::run(ctx),
         "C03" => c03::run(ctx),
+        "C04" => c04::run(ctx),
         "C05" => c05::run(ctx),
         "C06" => c06::run(ctx),
         "C07" => c07::run(ctx),
+        "C08" => c08::run(ctx),
         "C09" => c09::run(ctx),
         "C10" => c10::run(ctx),
         "C11" => c11::run(ctx),
@@ -44,9 +49,11 @@ pub fn replay_property(id: &str, w: &mut Worker, sub: &str, case: &serde_json::V
         "C01" => c01::replay(w, sub, case),
         "C02" => c02::replay(w, sub, case),
         "C03" => c03::replay(w, sub, case),
+        "C04" => c04::replay(w, sub, case),
         "C05" => c05::replay(w, sub, case),
         "C06" => c06::replay(w, sub, case),
         "C07" => c07::replay(w, sub, case),
+        "C08" => c08::replay(w, sub, case),
         "C09" => c09::replay(w, sub, case),
         "C10" => c10::replay(w, sub, case),
         "C11" => c11::replay(w, sub, case),
